@@ -105,8 +105,35 @@ def replay_part(pid, tier):
     return [r]
 
 
+# properties with probes in the compiled-code harness (/verif/replay-exec): what serde does with the generated declarations
+EXEC_PROPS = ("C01", "C03", "C04", "C05", "C09", "C10", "C16")
+
+
+def exec_part(pid, tier):
+    import vxreplay
+    r = {"obligation": pid + ".exec.bounded", "status": "ok", "engine": "compiled-code harness: the real derive expands in a consumer crate, the generated types are exercised with serde_json",
+         "bounded": True, "what": "behavioural probes of the generated code (deserialize / serialize concrete payloads)", "bound": "the probes of /verif/replay-exec/src/main.rs for " + pid,
+         "trusted": [], "cmd": "cargo build --release --offline (in /verif/replay-exec) && vx-replay-exec", "cases": 0}
+    probes, err = vxreplay.exec_probes()
+    mine = [p for p in probes if p.get("p") == pid]
+    r["cases"] = len(mine)
+    bad = [p for p in mine if not p.get("ok")]
+    if bad:
+        b = bad[0]
+        r["status"] = "fail"
+        r["detail"] = "%s: %s" % (b["case"], b["detail"])
+        r["witness"] = {"case": {"exec": b["case"]}, "observed": r["detail"], "failing_probes": len(bad), "bounded": True,
+                        "how": "vx-replay-exec (a consumer crate compiled against /repo's working tree)", "cases_tried": len(mine)}
+    elif err or not mine:
+        r["status"] = "undecided"
+        r["detail"] = err or "no probe ran"
+    return [r]
+
+
 def extra_checks(pid, tier):
     out0 = replay_part(pid, tier) if pid in ALWAYS_REPLAY else []
+    if pid in EXEC_PROPS:
+        out0 += exec_part(pid, tier)
     return out0 + extra_checks_inner(pid, tier)
 
 
